@@ -16,19 +16,19 @@ thread_local! {
 
 // no Drop glue, but Clone is observable
 #[derive(Debug)]
-struct CK { id: u64, gen: u32 }
+struct CK { id: u64, gen: u32, seen: Cell<u32> }
 impl PartialEq for CK { fn eq(&self, o: &CK) -> bool { self.id == o.id } }
-impl Clone for CK { fn clone(&self) -> CK { KCLONES.with(|c| c.set(c.get() + 1)); CK { id: self.id, gen: self.gen + 1 } } }
+impl Clone for CK { fn clone(&self) -> CK { KCLONES.with(|c| c.set(c.get() + 1)); self.seen.set(self.seen.get() + 1); CK { id: self.id, gen: self.gen + 1, seen: Cell::new(0) } } }
 #[derive(Debug)]
-struct CV { dat: u64, gen: u32 }
+struct CV { dat: u64, gen: u32, seen: Cell<u32> }
 impl PartialEq for CV { fn eq(&self, o: &CV) -> bool { self.dat == o.dat } }
-impl Clone for CV { fn clone(&self) -> CV { VCLONES.with(|c| c.set(c.get() + 1)); CV { dat: self.dat, gen: self.gen + 1 } } }
+impl Clone for CV { fn clone(&self) -> CV { VCLONES.with(|c| c.set(c.get() + 1)); self.seen.set(self.seen.get() + 1); CV { dat: self.dat, gen: self.gen + 1, seen: Cell::new(0) } } }
 
 fn clone_counts<const N: usize>() {
     for fill in 0..=N {
         let mut m: Map<CK, CV, N> = Map::new();
-        for i in 0..fill { m.insert(CK { id: i as u64, gen: 0 }, CV { dat: 10 * i as u64, gen: 0 }); }
-        if fill >= 2 { m.remove(&CK { id: 0, gen: 0 }); }
+        for i in 0..fill { m.insert(CK { id: i as u64, gen: 0, seen: Cell::new(0) }, CV { dat: 10 * i as u64, gen: 0, seen: Cell::new(0) }); }
+        if fill >= 2 { m.remove(&CK { id: 0, gen: 0, seen: Cell::new(0) }); }
         let len = m.len() as u64;
         KCLONES.with(|c| c.set(0)); VCLONES.with(|c| c.set(0));
         let c = m.clone();
@@ -39,13 +39,19 @@ fn clone_counts<const N: usize>() {
         if c.iter().any(|(k, v)| k.gen != 1 || v.gen != 1) {
             fault(format!("op=shapes CLONE_COUNT Map<_,_,{}>::clone stored elements that did not come from exactly one clone() call", N));
         }
+        if m.iter().any(|(k, v)| k.seen.get() != 1 || v.seen.get() != 1) || c.iter().any(|(k, v)| k.seen.get() != 0 || v.seen.get() != 0) {
+            fault(format!("op=shapes CLONE_SELF Map<_,_,{}>::clone did not call clone() exactly once on each element stored in the source (what clone() does to its receiver is lost)", N));
+        }
         if c != m || c.len() != m.len() {
             fault(format!("op=shapes CLONE_EQ clone of a Map<_,_,{}> with {} entries does not compare equal", N, len));
         }
         let mut s: Set<CK, N> = Set::new();
-        for i in 0..fill { s.insert(CK { id: i as u64, gen: 0 }); }
+        for i in 0..fill { s.insert(CK { id: i as u64, gen: 0, seen: Cell::new(0) }); }
         KCLONES.with(|c| c.set(0));
         let sc = s.clone();
+        if s.iter().any(|k| k.seen.get() != 1) {
+            fault(format!("op=shapes CLONE_SELF Set<_,{}>::clone did not call clone() exactly once on each element stored in the source", N));
+        }
         if KCLONES.with(|c| c.get()) != s.len() as u64 || sc.iter().any(|k| k.gen != 1) {
             fault(format!("op=shapes CLONE_COUNT Set<no-Drop T, {}>::clone of {} elements: wrong number of clone() calls", N, s.len()));
         }
@@ -171,6 +177,318 @@ fn misc_surface() {
     }
 }
 
+// ---------------------------------------------------------------------------------------------
+// Reference-model differential over element SHAPES.  The theorems are polymorphic in K and V and
+// the model-correspondence suites run on one instrumented element type; this drives every safe
+// Map / Set operation on other layouts (zero-sized pairs, ZST key or value, 1-byte, large, heap
+// owning) against an association-list / vector reference that only uses ==.
+struct Lcg(u64);
+impl Lcg {
+    fn below(&mut self, n: usize) -> usize {
+        self.0 = self.0.wrapping_mul(6364136223846793005).wrapping_add(1442695040888963407);
+        ((self.0 >> 33) as usize) % n.max(1)
+    }
+}
+trait El: Eq + Clone + std::fmt::Debug {}
+impl<T: Eq + Clone + std::fmt::Debug> El for T {}
+
+fn map_agrees<K: El, V: El, const N: usize>(m: &Map<K, V, N>, r: &[(K, V)], universe: &[K]) -> Result<(), String> {
+    if m.len() != r.len() || m.is_empty() != r.is_empty() || m.capacity() != N { return Err(format!("len {} is_empty {} capacity {} but the reference holds {} entries", m.len(), m.is_empty(), m.capacity(), r.len())); }
+    let it: Vec<(&K, &V)> = m.iter().collect();
+    if it.len() != r.len() || m.keys().count() != r.len() || m.values().count() != r.len() || m.iter().len() != r.len() { return Err(format!("iteration yields {} entries, keys() {}, values() {}, the reference holds {}", it.len(), m.keys().count(), m.values().count(), r.len())); }
+    for (k, v) in r {
+        if it.iter().filter(|(a, _)| *a == k).count() != 1 || !it.iter().any(|(a, b)| *a == k && *b == v) { return Err(format!("iteration does not yield {:?} -> {:?} exactly once: {:?}", k, v, it)); }
+        if m.get(k) != Some(v) { return Err(format!("get({:?}) = {:?}, the reference says {:?}", k, m.get(k), v)); }
+        if !m.contains_key(k) { return Err(format!("contains_key({:?}) = false for a present key", k)); }
+        if m.get_key_value(k) != Some((k, v)) { return Err(format!("get_key_value({:?}) = {:?}", k, m.get_key_value(k))); }
+        match catch_unwind(AssertUnwindSafe(|| m[k] == *v)) { Ok(true) => {}, Ok(false) => return Err(format!("m[{:?}] is not {:?}", k, v)), Err(_) => return Err(format!("m[{:?}] panics for a present key", k)) }
+    }
+    for k in universe {
+        if r.iter().any(|(a, _)| a == k) { continue; }
+        if m.get(k).is_some() || m.contains_key(k) || m.get_key_value(k).is_some() { return Err(format!("lookup finds the absent key {:?}", k)); }
+        if catch_unwind(AssertUnwindSafe(|| { let _ = &m[k]; })).is_ok() { return Err(format!("m[{:?}] does not panic for an absent key", k)); }
+    }
+    Ok(())
+}
+
+fn dict_shape<K: El, V: El, const N: usize>(name: &str, universe: &[K], vals: &[V], seed: u64) {
+    if cfg!(miri) && N > 8 { return; } // the interpreter is ~500x slower; the small layouts carry the UB search
+    let mut g = G::new(Map::<K, V, N>::new());
+    let mut r: Vec<(K, V)> = Vec::new();
+    let mut rng = Lcg(seed);
+    for step in 0..(if cfg!(miri) { 70 + N.min(40) } else { 400 + 12 * N }) {
+        let k = universe[rng.below(universe.len())].clone();
+        let v = vals[rng.below(vals.len())].clone();
+        let pos = r.iter().position(|(a, _)| *a == k);
+        let opn = rng.below(16);
+        let m = &mut g.v;
+        let mut bad: Option<String> = None;
+        let mut expect = |ok: bool, what: String| { if !ok && bad.is_none() { bad = Some(what); } };
+        match opn {
+            0 | 1 | 2 => match (pos, r.len() < N) {
+                (Some(i), _) => { let old = std::mem::replace(&mut r[i].1, v.clone()); let got = m.insert(k.clone(), v); expect(got == Some(old), format!("insert({:?}) on a present key returned {:?}", k, got)); }
+                (None, true) => { r.push((k.clone(), v.clone())); let got = m.insert(k.clone(), v); expect(got.is_none(), format!("insert({:?}) of a new key returned {:?}", k, got)); }
+                (None, false) => { let p = catch_unwind(AssertUnwindSafe(|| { m.insert(k.clone(), v); })); expect(p.is_err(), format!("insert({:?}) into a full map did not panic", k)); }
+            },
+            3 => match (pos, r.len() < N) {
+                (Some(i), _) => { let old = std::mem::replace(&mut r[i].1, v.clone()); let got = m.checked_insert(k.clone(), v); expect(got == Some(Some(old)), format!("checked_insert({:?}) on a present key returned {:?}", k, got)); }
+                (None, true) => { r.push((k.clone(), v.clone())); let got = m.checked_insert(k.clone(), v); expect(got == Some(None), format!("checked_insert({:?}) of a new key returned {:?}", k, got)); }
+                (None, false) => { let got = m.checked_insert(k.clone(), v); expect(got.is_none(), format!("checked_insert({:?}) into a full map returned {:?}", k, got)); }
+            },
+            4 => match (pos, r.len() < N) {
+                (Some(i), _) => { let old = std::mem::replace(&mut r[i], (k.clone(), v.clone())); let got = m.insert_key_value(k.clone(), v); expect(got == Some(old), format!("insert_key_value({:?}) on a present key returned {:?}", k, got)); }
+                (None, true) => { r.push((k.clone(), v.clone())); let got = m.insert_key_value(k.clone(), v); expect(got.is_none(), format!("insert_key_value({:?}) of a new key returned {:?}", k, got)); }
+                (None, false) => { let p = catch_unwind(AssertUnwindSafe(|| { m.insert_key_value(k.clone(), v); })); expect(p.is_err(), format!("insert_key_value({:?}) into a full map did not panic", k)); }
+            },
+            5 => { let got = m.get_mut(&k); expect(got.is_some() == pos.is_some(), format!("get_mut({:?}) presence {:?}", k, got.is_some()));
+                   if let (Some(x), Some(i)) = (got, pos) { *x = v.clone(); r[i].1 = v; } }
+            6 => { let got = m.remove(&k); let want = pos.map(|i| r.swap_remove(i).1); expect(got == want, format!("remove({:?}) returned {:?}, the reference {:?}", k, got, want)); }
+            7 => { let got = m.remove_entry(&k); let want = pos.map(|i| r.swap_remove(i)); expect(got == want, format!("remove_entry({:?}) returned {:?}, the reference {:?}", k, got, want)); }
+            8 => { let keep = |x: &K| universe.iter().position(|u| u == x).unwrap_or(0) % 2 == step % 2; let mut calls = 0;
+                   m.retain(|a, _| { calls += 1; keep(a) }); expect(calls == r.len(), format!("retain called its predicate {} times on {} entries", calls, r.len())); r.retain(|(a, _)| keep(a)); }
+            9 => { if rng.below(4) == 0 { m.clear(); r.clear(); } }
+            10 => { if rng.below(3) == 0 { let take = rng.below(r.len() + 2); let got: Vec<(K, V)> = m.drain().take(take).collect();
+                   expect(got.len() == take.min(r.len()) && got.iter().all(|(a, b)| r.iter().any(|(c, d)| a == c && b == d)), format!("drain().take({}) yielded {:?} from {:?}", take, got, r)); r.clear(); } }
+            11 => match (pos, r.len() < N) {
+                (Some(i), _) => { let got = m.entry(k.clone()).or_insert(v); expect(*got == r[i].1, format!("entry({:?}).or_insert on a present key gives {:?}", k, got)); }
+                (None, true) => { r.push((k.clone(), v.clone())); let got = m.entry(k.clone()).or_insert(v.clone()); expect(*got == v, format!("entry({:?}).or_insert on a vacant key gives {:?}", k, got)); }
+                (None, false) => { let p = catch_unwind(AssertUnwindSafe(|| { m.entry(k.clone()).or_insert(v); })); expect(p.is_err(), format!("entry({:?}).or_insert into a full map did not panic", k)); }
+            },
+            12 => { let c = m.clone(); expect(c == *m && c.len() == r.len(), "the clone differs from the original".to_string());
+                    let all: Vec<(K, V)> = c.into_iter().collect(); expect(all.len() == r.len() && r.iter().all(|p| all.contains(p)), format!("into_iter of the clone yields {:?}, the reference holds {:?}", all, r)); }
+            13 => { if universe.len() >= 2 { let k2 = universe[(universe.iter().position(|u| *u == k).unwrap() + 1) % universe.len()].clone();
+                    let p2 = r.iter().position(|(a, _)| *a == k2);
+                    let [a, b] = m.get_disjoint_mut([&k, &k2]);
+                    expect(a.is_some() == pos.is_some() && b.is_some() == p2.is_some(), format!("get_disjoint_mut([{:?}, {:?}]) presence ({}, {})", k, k2, a.is_some(), b.is_some()));
+                    if let (Some(x), Some(i)) = (a, pos) { expect(*x == r[i].1, format!("get_disjoint_mut gives {:?} for {:?}", x, k)); *x = v.clone(); r[i].1 = v; } } }
+            14 => { let n = m.values_mut().map(|x| *x = v.clone()).count(); expect(n == r.len(), format!("values_mut yields {} of {}", n, r.len())); for p in r.iter_mut() { p.1 = v.clone(); } }
+            _ => { let ks: Vec<K> = m.keys().cloned().collect(); let c: Map<K, V, N> = m.iter().map(|(a, b)| (a.clone(), b.clone())).collect();
+                   expect(ks.len() == r.len() && c == *m, "collect of the map's own entries differs from it".to_string()); }
+        }
+        let bad = bad.or_else(|| map_agrees(&g.v, &r, universe).err());
+        if let Some(what) = bad { fault(format!("op=shapes SHAPE_DICT {} Map<_,_,{}> step {} (operation kind {}): {}", name, N, step, opn, what)); return; }
+        if !g.ok() { fault(format!("op=shapes CANARY {} Map<_,_,{}>: memory next to the map was overwritten at step {}", name, N, step)); return; }
+    }
+}
+
+fn set_agrees<T: El, const N: usize>(s: &Set<T, N>, r: &[T], universe: &[T]) -> Result<(), String> {
+    if s.len() != r.len() || s.is_empty() != r.is_empty() || s.capacity() != N { return Err(format!("len {} is_empty {} but the reference holds {}", s.len(), s.is_empty(), r.len())); }
+    let it: Vec<&T> = s.iter().collect();
+    if it.len() != r.len() || s.iter().len() != r.len() { return Err(format!("iteration yields {} of {}", it.len(), r.len())); }
+    for x in universe {
+        let present = r.contains(x);
+        if s.contains(x) != present { return Err(format!("contains({:?}) = {} but the reference says {}", x, s.contains(x), present)); }
+        if s.get(x).is_some() != present { return Err(format!("get({:?}) presence {} but the reference says {}", x, s.get(x).is_some(), present)); }
+        if it.iter().filter(|a| **a == x).count() != present as usize { return Err(format!("iteration yields {:?} {} times", x, it.iter().filter(|a| **a == x).count())); }
+    }
+    Ok(())
+}
+
+fn set_shape<T: El, const N: usize, const M: usize>(name: &str, universe: &[T], seed: u64) {
+    if cfg!(miri) && N > 8 { return; }
+    let mut g = G::new(Set::<T, N>::new());
+    let mut r: Vec<T> = Vec::new();
+    let mut rng = Lcg(seed);
+    for step in 0..(if cfg!(miri) { 70 + N.min(40) } else { 400 + 12 * N }) {
+        let x = universe[rng.below(universe.len())].clone();
+        let pos = r.iter().position(|a| *a == x);
+        let opn = rng.below(12);
+        let s = &mut g.v;
+        let mut bad: Option<String> = None;
+        let mut expect = |ok: bool, what: String| { if !ok && bad.is_none() { bad = Some(what); } };
+        match opn {
+            0 | 1 | 2 => match (pos, r.len() < N) {
+                (Some(_), _) => { expect(!s.insert(x.clone()), format!("insert({:?}) of a member returned true", x)); }
+                (None, true) => { r.push(x.clone()); expect(s.insert(x.clone()), format!("insert({:?}) of a new element returned false", x)); }
+                (None, false) => { let p = catch_unwind(AssertUnwindSafe(|| { s.insert(x.clone()); })); expect(p.is_err(), format!("insert({:?}) into a full set did not panic", x)); }
+            },
+            3 => match (pos, r.len() < N) {
+                (Some(_), _) => { let got = s.replace(x.clone()); expect(got.as_ref() == Some(&x), format!("replace({:?}) of a member returned {:?}", x, got)); }
+                (None, true) => { r.push(x.clone()); expect(s.replace(x.clone()).is_none(), format!("replace({:?}) of a new element returned Some", x)); }
+                (None, false) => { let p = catch_unwind(AssertUnwindSafe(|| { s.replace(x.clone()); })); expect(p.is_err(), format!("replace({:?}) into a full set did not panic", x)); }
+            },
+            4 => { let got = s.remove(&x); if let Some(i) = pos { r.swap_remove(i); } expect(got == pos.is_some(), format!("remove({:?}) returned {}", x, got)); }
+            5 => { let got = s.take(&x); if let Some(i) = pos { r.swap_remove(i); } expect(got.is_some() == pos.is_some(), format!("take({:?}) returned {:?}", x, got)); }
+            6 => { let keep = |e: &T| universe.iter().position(|u| u == e).unwrap_or(0) % 2 == step % 2; s.retain(|e| keep(e)); r.retain(|e| keep(e)); }
+            7 => { if rng.below(4) == 0 { s.clear(); r.clear(); } }
+            8 => { if rng.below(3) == 0 { let take = rng.below(r.len() + 2); let got: Vec<T> = s.drain().take(take).collect(); expect(got.len() == take.min(r.len()) && got.iter().all(|a| r.contains(a)), format!("drain().take({}) yielded {:?} from {:?}", take, got, r)); r.clear(); } }
+            9 => { let items: Vec<T> = (0..rng.below(4)).map(|_| universe[rng.below(universe.len())].clone()).collect();
+                   let mut overflow = false; for e in items.iter() { if r.contains(e) { continue; } if r.len() < N { r.push(e.clone()); } else { overflow = true; break; } }
+                   let p = catch_unwind(AssertUnwindSafe(|| s.extend(items.clone()))); expect(p.is_err() == overflow, format!("extend({:?}) panicked: {}, the reference overflows: {}", items, p.is_err(), overflow)); }
+            10 => { let c = s.clone(); expect(c == *s, "the clone differs from the original".to_string()); let all: Vec<T> = c.into_iter().collect(); expect(all.len() == r.len() && r.iter().all(|e| all.contains(e)), format!("into_iter of the clone yields {:?}", all)); }
+            _ => {
+                let mut other: Set<T, M> = Set::new(); let mut o: Vec<T> = Vec::new();
+                for _ in 0..rng.below(M + 1) { let e = universe[rng.below(universe.len())].clone(); if !o.contains(&e) { o.push(e.clone()); other.insert(e); } }
+                let same = |got: Vec<&T>, want: Vec<&T>| got.len() == want.len() && want.iter().all(|e| got.iter().filter(|a| **a == *e).count() == 1);
+                let uni: Vec<&T> = r.iter().chain(o.iter().filter(|e| !r.contains(e))).collect();
+                let int: Vec<&T> = r.iter().filter(|e| o.contains(e)).collect();
+                let dif: Vec<&T> = r.iter().filter(|e| !o.contains(e)).collect();
+                let sym: Vec<&T> = r.iter().filter(|e| !o.contains(e)).chain(o.iter().filter(|e| !r.contains(e))).collect();
+                expect(same(s.union(&other).collect(), uni), format!("union of {:?} and {:?}", r, o));
+                expect(same(s.intersection(&other).collect(), int), format!("intersection of {:?} and {:?}", r, o));
+                expect(same(s.difference(&other).collect(), dif.clone()), format!("difference of {:?} and {:?}", r, o));
+                expect(same(s.symmetric_difference(&other).collect(), sym), format!("symmetric_difference of {:?} and {:?}", r, o));
+                let d = &*s - &other; expect(same(d.iter().collect(), dif), format!("{:?} - {:?} gives {:?}", r, o, d));
+                expect(s.is_subset(&other) == r.iter().all(|e| o.contains(e)), format!("is_subset of {:?} in {:?} = {}", r, o, s.is_subset(&other)));
+                expect(s.is_superset(&other) == o.iter().all(|e| r.contains(e)), format!("is_superset of {:?} over {:?} = {}", r, o, s.is_superset(&other)));
+                expect(s.is_disjoint(&other) == !r.iter().any(|e| o.contains(e)), format!("is_disjoint of {:?} and {:?} = {}", r, o, s.is_disjoint(&other)));
+                expect((*s == *s) && (other == other), "a set differs from itself".to_string());
+            }
+        }
+        let bad = bad.or_else(|| set_agrees(&g.v, &r, universe).err());
+        if let Some(what) = bad { fault(format!("op=shapes SHAPE_SET {} Set<_,{}> step {} (operation kind {}): {}", name, N, step, opn, what)); return; }
+        if !g.ok() { fault(format!("op=shapes CANARY {} Set<_,{}>: memory next to the set was overwritten at step {}", name, N, step)); return; }
+    }
+}
+
+#[derive(Clone, PartialEq, Eq, Debug)]
+struct Marker;
+
+fn shape_models() {
+    for seed in 1..=(if cfg!(miri) { 1u64 } else { 3u64 }) {
+        dict_shape::<(), (), 2>("() -> () (zero-sized pair)", &[()], &[()], seed);
+        dict_shape::<Marker, (), 1>("unit struct -> ()", &[Marker], &[()], seed);
+        dict_shape::<[u8; 0], std::marker::PhantomData<u64>, 3>("[u8; 0] -> PhantomData", &[[]], &[std::marker::PhantomData], seed);
+        dict_shape::<(), u64, 1>("() -> u64 (ZST key)", &[()], &[1, 2, 3], seed);
+        dict_shape::<u8, (), 3>("u8 -> () (ZST value)", &[1, 2, 3, 4, 5], &[()], seed);
+        dict_shape::<u8, u8, 0>("u8 -> u8, capacity 0", &[1, 2], &[7, 8], seed);
+        dict_shape::<u8, bool, 4>("u8 -> bool", &[1, 2, 3, 4, 5, 6], &[true, false], seed);
+        dict_shape::<u32, u32, 5>("u32 -> u32", &[1, 2, 3, 4, 5, 6, 7], &[10, 20, 30], seed);
+        dict_shape::<u16, [u8; 3], 8>("u16 -> [u8; 3] (odd-sized)", &[1, 2, 3, 4, 5, 6, 7, 8, 9, 10], &[[1, 2, 3], [4, 5, 6]], seed);
+        dict_shape::<u64, [u64; 32], 3>("u64 -> [u64; 32] (large)", &[1, 2, 3, 4], &[[7; 32], [9; 32]], seed);
+        dict_shape::<String, Vec<u8>, 4>("String -> Vec<u8> (heap-owning)", &["a".to_string(), "b".to_string(), "c".to_string(), "d".to_string(), "e".to_string()], &[vec![1], vec![2, 3], vec![]], seed);
+        dict_shape::<(u8, u32), Option<Box<u16>>, 3>("(u8, u32) -> Option<Box<u16>> (padding, niche)", &[(1, 1), (1, 2), (2, 1), (2, 2)], &[None, Some(Box::new(5))], seed);
+        set_shape::<(), 1, 1>("() (zero-sized)", &[()], seed);
+        set_shape::<Marker, 2, 1>("unit struct", &[Marker], seed);
+        set_shape::<u8, 0, 2>("u8, capacity 0", &[1, 2], seed);
+        set_shape::<u8, 4, 3>("u8", &[1, 2, 3, 4, 5, 6], seed);
+        set_shape::<u64, 5, 8>("u64", &[1, 2, 3, 4, 5, 6, 7], seed);
+        set_shape::<[u64; 16], 3, 2>("[u64; 16] (large)", &[[1; 16], [2; 16], [3; 16], [4; 16]], seed);
+        set_shape::<String, 4, 4>("String (heap-owning)", &["a".to_string(), "b".to_string(), "c".to_string(), "d".to_string(), "e".to_string()], seed);
+        // containers larger than a machine word has bits (and than any register of the model-correspondence suites)
+        let big: Vec<u32> = (0..100).collect();
+        dict_shape::<u32, u32, 72>("u32 -> u32, capacity 72", &big, &[1, 2, 3], seed);
+        dict_shape::<u32, u8, 130>("u32 -> u8, capacity 130", &big, &[1, 2], seed);
+        set_shape::<u32, 72, 96>("u32, capacity 72 (other operand: capacity 96)", &big, seed);
+        set_shape::<u32, 130, 70>("u32, capacity 130 (other operand: capacity 70)", &big, seed);
+    }
+}
+
+// serde through a self-describing format (JSON): a Set is a sequence of len() elements, a Map a
+// map of len() entries, and both round-trip into any capacity >= len()
+fn serde_shapes() {
+    fn set_rt<const N: usize, const M: usize>(s: &Set<u32, N>) {
+        let v = serde_json::to_value(s);
+        match &v {
+            Ok(serde_json::Value::Array(a)) if a.len() == s.len() => {}
+            other => { fault(format!("op=shapes SERDE_SHAPE a Set<u32,{}> with {} elements serializes as {:?} instead of a sequence of {} elements", N, s.len(), other, s.len())); return; }
+        }
+        let txt = serde_json::to_string(s).unwrap();
+        match serde_json::from_str::<Set<u32, M>>(&txt) {
+            Ok(back) => if back.len() != s.len() || !s.iter().all(|x| back.contains(x)) { fault(format!("op=shapes SERDE_SHAPE Set<u32,{}> {} read back into capacity {} gives {:?}", N, txt, M, back)); },
+            Err(e) => fault(format!("op=shapes SERDE_SHAPE Set<u32,{}> {} does not read back into capacity {}: {}", N, txt, M, e)),
+        }
+        match serde_json::from_str::<Vec<u32>>(&txt) { Ok(v) if v.len() == s.len() => {}, other => fault(format!("op=shapes SERDE_SHAPE the output {} of a Set is not a plain sequence: {:?}", txt, other)) }
+    }
+    fn map_rt<const N: usize, const M: usize>(m: &Map<u32, String, N>) {
+        let v = serde_json::to_value(m);
+        match &v {
+            Ok(serde_json::Value::Object(a)) if a.len() == m.len() => {}
+            other => { fault(format!("op=shapes SERDE_SHAPE a Map<u32,String,{}> with {} entries serializes as {:?} instead of a map of {} entries", N, m.len(), other, m.len())); return; }
+        }
+        let txt = serde_json::to_string(m).unwrap();
+        match serde_json::from_str::<Map<u32, String, M>>(&txt) {
+            Ok(back) => if back.len() != m.len() || !m.iter().all(|(k, x)| back.get(k) == Some(x)) { fault(format!("op=shapes SERDE_SHAPE Map<u32,String,{}> {} read back into capacity {} gives {:?}", N, txt, M, back)); },
+            Err(e) => fault(format!("op=shapes SERDE_SHAPE Map<u32,String,{}> {} does not read back into capacity {}: {}", N, txt, M, e)),
+        }
+    }
+    let r = catch_unwind(|| {
+        let mut s: Set<u32, 5> = Set::new();
+        set_rt::<5, 5>(&s); set_rt::<5, 0>(&s);
+        for i in 0..5 { s.insert(10 + i); set_rt::<5, 5>(&s); set_rt::<5, 9>(&s); }
+        s.remove(&10); s.remove(&12); set_rt::<5, 3>(&s); s.insert(77); set_rt::<5, 4>(&s);
+        let z: Set<u32, 0> = Set::new(); set_rt::<0, 0>(&z); set_rt::<0, 2>(&z);
+        let mut m: Map<u32, String, 4> = Map::new();
+        map_rt::<4, 4>(&m); map_rt::<4, 0>(&m);
+        for i in 0..4 { m.insert(i, format!("v{}", i)); map_rt::<4, 4>(&m); map_rt::<4, 7>(&m); }
+        m.remove(&0); m.remove(&2); map_rt::<4, 2>(&m); m.insert(9, "x".into()); map_rt::<4, 3>(&m);
+        // input of the wrong shape is an error, not a panic
+        if serde_json::from_str::<Map<u32, String, 2>>("[1, 2]").is_ok() || serde_json::from_str::<Set<u32, 2>>("{\"1\": 2}").is_ok() { fault("op=shapes SERDE_SHAPE input of the wrong shape was accepted".into()); }
+        // (more entries than the capacity: the crate's insert panics, as C03 describes; neither outcome is demanded here)
+        let _ = catch_unwind(|| { let _ = serde_json::from_str::<Set<u32, 2>>("[1, 2, 3]"); let _ = serde_json::from_str::<Map<u32, u32, 1>>("{\"1\": 2, \"3\": 4}"); });
+        let nested: Map<u32, Set<u32, 3>, 2> = Map::from([(1, Set::from([1, 2, 3])), (2, Set::new())]);
+        let txt = serde_json::to_string(&nested).unwrap();
+        match serde_json::from_str::<Map<u32, Set<u32, 3>, 2>>(&txt) { Ok(b) if b == nested => {}, other => fault(format!("op=shapes SERDE_SHAPE nested {} reads back as {:?}", txt, other)) }
+    });
+    if r.is_err() { fault("op=shapes SERDE_SHAPE the serde scenario panicked".into()); }
+}
+
+// Debug of containers whose entries have structured (multi-line, flag-sensitive) renderings must be
+// exactly what the standard builders give for the same entries in iteration order, under every
+// format spec; Display is '{' entries joined by ", " '}'
+struct RefMap<'a, K, V>(Vec<(&'a K, &'a V)>);
+impl<K: std::fmt::Debug, V: std::fmt::Debug> std::fmt::Debug for RefMap<'_, K, V> {
+    fn fmt(&self, f: &mut std::fmt::Formatter<'_>) -> std::fmt::Result { f.debug_map().entries(self.0.iter().map(|(k, v)| (*k, *v))).finish() }
+}
+struct RefSet<'a, T>(Vec<&'a T>);
+impl<T: std::fmt::Debug> std::fmt::Debug for RefSet<'_, T> {
+    fn fmt(&self, f: &mut std::fmt::Formatter<'_>) -> std::fmt::Result { f.debug_set().entries(self.0.iter().copied()).finish() }
+}
+macro_rules! same_fmt {
+    ($what:expr, $a:expr, $b:expr, $($spec:literal),*) => { $(
+        let (x, y) = (format!($spec, $a), format!($spec, $b));
+        if x != y { fault(format!("op=shapes FMT_SHAPE {} formatted with {:?} gives {:?}, the standard rendering of the same entries is {:?}", $what, $spec, x, y)); }
+    )* };
+}
+fn fmt_shapes() {
+    let r = catch_unwind(|| {
+        let mut m: Map<(u8, &str), Option<(i32, f64)>, 5> = Map::new();
+        for step in 0..6 {
+            same_fmt!("Map<(u8,&str),Option<(i32,f64)>,5>", m, RefMap(m.iter().collect()), "{:?}", "{:#?}", "{:.2?}", "{:8?}", "{:<12.1?}", "{:#.3?}", "{:+?}", "{:08.2?}");
+            same_fmt!("Map::iter()", m.iter(), m.iter().collect::<Vec<_>>(), "{:?}", "{:#?}", "{:.1?}");
+            same_fmt!("Map::keys()", m.keys(), m.keys().collect::<Vec<_>>(), "{:?}", "{:#?}");
+            same_fmt!("Map::values()", m.values(), m.values().collect::<Vec<_>>(), "{:?}", "{:#?}", "{:.1?}");
+            match step { 0 => { m.insert((1, "one"), Some((1, 1.5))); } 1 => { m.insert((2, "two"), None); } 2 => { m.insert((3, "x\ny"), Some((-7, 0.125))); }
+                         3 => { m.remove(&(1, "one")); } 4 => { m.insert((9, ""), Some((0, 2.0))); } _ => {} }
+        }
+        let mut s: Set<Option<(u16, &str)>, 4> = Set::new();
+        for step in 0..5 {
+            same_fmt!("Set<Option<(u16,&str)>,4>", s, RefSet(s.iter().collect()), "{:?}", "{:#?}", "{:6?}", "{:>9?}", "{:#x?}");
+            match step { 0 => { s.insert(Some((1, "a"))); } 1 => { s.insert(None); } 2 => { s.insert(Some((300, "b\"c"))); } 3 => { s.remove(&Some((1, "a"))); } _ => {} }
+        }
+        let nested: Map<u8, Map<u8, Set<u8, 2>, 2>, 2> = Map::from([(1, Map::from([(2, Set::from([3, 4])), (5, Set::new())])), (6, Map::new())]);
+        let inner: Vec<(&u8, &Map<u8, Set<u8, 2>, 2>)> = nested.iter().collect();
+        same_fmt!("nested Map<u8,Map<u8,Set<u8,2>,2>,2>", nested, RefMap(inner.clone()), "{:?}", "{:#?}", "{:3?}");
+        let d: Map<u8, f32, 3> = [(1, 1.5), (2, 2.25)].into_iter().collect();
+        let want = format!("{{{}}}", d.iter().map(|(k, v)| format!("{}: {}", k, v)).collect::<Vec<_>>().join(", "));
+        if format!("{}", d) != want { fault(format!("op=shapes FMT_SHAPE Display of a Map gives {:?}, expected {:?}", format!("{}", d), want)); }
+        let ds: Set<&str, 3> = ["p", "q"].into_iter().collect();
+        let want = format!("{{{}}}", ds.iter().map(|k| format!("{}", k)).collect::<Vec<_>>().join(", "));
+        if format!("{}", ds) != want { fault(format!("op=shapes FMT_SHAPE Display of a Set gives {:?}, expected {:?}", format!("{}", ds), want)); }
+        // a sink that fails after k bytes: formatting reports the error, and what was written is a prefix
+        struct Short { out: String, room: usize }
+        impl FmtWrite for Short {
+            fn write_str(&mut self, s: &str) -> std::fmt::Result {
+                if self.out.len() + s.len() > self.room { return Err(std::fmt::Error); }
+                self.out.push_str(s); Ok(())
+            }
+        }
+        let full_d = format!("{}", d); let full_s = format!("{}", ds); let full_g = format!("{:?} {:#?}", d, ds);
+        for room in 0..full_d.len().max(full_s.len()).max(full_g.len()) + 1 {
+            let mut k = Short { out: String::new(), room };
+            let r1 = write!(k, "{}", d);
+            if r1.is_ok() != (room >= full_d.len()) || !full_d.starts_with(&k.out) { fault(format!("op=shapes FMT_SHAPE Display of a Map into a sink with room for {} bytes: result {:?}, wrote {:?}", room, r1, k.out)); }
+            let mut k = Short { out: String::new(), room };
+            let r2 = write!(k, "{}", ds);
+            if r2.is_ok() != (room >= full_s.len()) || !full_s.starts_with(&k.out) { fault(format!("op=shapes FMT_SHAPE Display of a Set into a sink with room for {} bytes: result {:?}, wrote {:?}", room, r2, k.out)); }
+            let mut k = Short { out: String::new(), room };
+            let r3 = write!(k, "{:?} {:#?}", d, ds);
+            if r3.is_ok() != (room >= full_g.len()) || !full_g.starts_with(&k.out) { fault(format!("op=shapes FMT_SHAPE Debug into a sink with room for {} bytes: result {:?}, wrote {:?}", room, r3, k.out)); }
+        }
+    });
+    if r.is_err() { fault("op=shapes FMT_SHAPE the formatting scenario panicked".into()); }
+}
+
 pub fn run() {
     clone_counts::<1>(); clone_counts::<3>(); clone_counts::<8>();
     overflow_shape::<u8, (), 0>("u8 -> () (ZST value)", &[], 1, ());
@@ -182,4 +500,7 @@ pub fn run() {
     overflow_shape::<u16, [u8; 3], 8>("odd-sized", &[1, 2, 3, 4, 5, 6, 7, 8], 9, [1, 2, 3]);
     no_alloc();
     misc_surface();
+    shape_models();
+    serde_shapes();
+    fmt_shapes();
 }
